@@ -887,6 +887,13 @@ class _FakeXtuml(object):
         return None
 
 
+def diff_obs(a, b):
+    for x_, y_ in zip(a, b):
+        if x_ != y_:
+            return 'before %r, after %r' % (x_, y_)
+    return 'before %d observations, after %d' % (len(a), len(b))
+
+
 def components(ref, i, members):
     '''
     Chains and rings formed by the reflexive 1:1 association i among `members`
@@ -1236,7 +1243,8 @@ class StoreEngine(Engine):
     def reach_missing(self, prop, tier, probes, faults):
         need = {
             'C02': ['F1_relate_overflow', 'F1_unrelate_unlinked', 'F1_unknown_link', 'F1_delete_again',
-                    'delete_with_2_links', 'relate_noop', 'undo_checked', 'reflexive_relate', 'assoc_class_relate'],
+                    'delete_with_2_links', 'relate_noop', 'undo_checked', 'undo_exact', 'reflexive_relate',
+                    'assoc_class_relate'],
             'C09': ['nav_two_hop', 'nav_reflexive', 'nav_len3', 'order_with_ties', 'select_one_none', 'held_rechecked',
                     'nav_from_set', 'subtype_found'],
             'C10': ['write_then_read_other_spelling', 'F1_set_referential', 'where_eq_spelling', 'delattr', 'shadow_world'],
@@ -1343,7 +1351,11 @@ class Exec(object):
         except RefError as e:
             exp, exp_exc = None, e.cls
         if exp_exc is not None and k != 'new':
-            before_text = self.serialized()
+            before_text = self.observe()
+        nxt = self.case['ops'][self.step + 1] if self.step + 1 < len(self.case['ops']) else None
+        if k == 'relate' and exp_exc is None and nxt is not None and nxt.get('undo') and exp[1] and not exp[2]:
+            # a relate that really adds a link, followed by its matching unrelate: remember the exact state
+            self.undo_snapshot = (self.step + 1, self.observe())
 
         # real
         try:
@@ -1387,10 +1399,19 @@ class Exec(object):
         # state comparison after every step
         self.compare_state('%s (step %d)' % (k, self.step))
         if before_text is not None:
-            after = self.serialized()
+            after = self.observe()
             if after != before_text:
-                raise Violation('atomic', 'step %d: rejected call %r changed the serialized model' % (self.step, op),
-                                'atomic:%s' % k)
+                raise Violation('atomic', 'step %d: rejected call %r changed the model: %s'
+                                % (self.step, op, diff_obs(before_text, after)), 'atomic:%s' % k)
+        snap = getattr(self, 'undo_snapshot', None)
+        if snap is not None and snap[0] == self.step:
+            self.undo_snapshot = None
+            if k == 'unrelate' and exp_exc is None:
+                after = self.observe()
+                if after != snap[1]:
+                    raise Violation('undo', 'step %d: unrelate %r after the matching relate did not restore the model: %s'
+                                    % (self.step, op, diff_obs(snap[1], after)), 'undo')
+                self.bump(self.probes, 'undo_exact')
         self.log.event(self.step, op.get('a'), k, exp_exc or self.render_outcome(exp, act))
         self.record_state()
 
@@ -1869,6 +1890,41 @@ class Exec(object):
         return None
 
     # ---- whole-state comparison through the public API
+    def observe(self):
+        '''
+        Exact observational snapshot (order included): pools, every attribute read, navigation from both ends of
+        every association for every live instance, serialized text.  Used where the statements say "exactly as it
+        was": around rejected calls and around relate + matching unrelate.
+        '''
+        ref, w, x, m = self.ref, self.w, self.x, self.w.m
+        out = []
+        for c in ref.schema.classes:
+            if c.get('bad') or c['kind'].upper() in w.zombies:
+                continue
+            insts = list(m.select_many(c['kind']))
+            out.append(('pool', c['kind'], tuple(w.labels(insts))))
+            for inst in insts:
+                vals = []
+                for name, ty in c['attrs']:
+                    try:
+                        vals.append(self.cv(getattr(inst, name)))
+                    except AttributeError:
+                        vals.append('<unset>')
+                out.append(('row', w.label(inst), tuple(vals)))
+        for i, a in enumerate(ref.schema.assocs):
+            rel = 'R%d' % a['rel']
+            for from_referring in (True, False):
+                fk = a['src'] if from_referring else a['tgt']
+                tk = a['tgt'] if from_referring else a['src']
+                phrase = a['src_phrase'] if from_referring else a['tgt_phrase']
+                if fk.upper() in w.zombies or tk.upper() in w.zombies:
+                    continue
+                for h in ref.live(fk):
+                    res = x.navigate_many(w.h2i[h]).nav(tk, rel, phrase)()
+                    out.append(('nav', i, from_referring, h, tuple(w.labels(res))))
+        out.append(('text', self.serialized()))
+        return out
+
     def serialized(self):
         try:
             return self.x.serialize_instances(self.w.m)
